@@ -23,7 +23,7 @@ theorem reassembly_partition_cache {ρ σ : Type} (P : Parsers ρ σ) (hm : MinL
     ((Huginn.FlowProgs.httpAnalyzer (params P)).runOuts ({ cap := cap }, ())
         (ps.map (fun x => toSeg x.1 x.2.1 x.2.2))).map (fun po => (po.2.req, po.2.resp)) =
       specConn P c ds := by
-  rw [http_trace_bridge_fresh P a cap ps hwin hfit, hps]
+  rw [http_trace_bridge_fresh P a cap ps hwin hfit, hps, runS_conn P c ds (fun d hd => (hpl d hd).2.2)]
   exact reassembly_partition P hm c C S ds hne hpl hC hS pC pS
 
 theorem params_resultIndep {ρ σ : Type} (P : Parsers ρ σ) : Huginn.Props.C07.ResultIndep (params P) :=
